@@ -172,6 +172,10 @@ def pick3 (f : List Nat) (t : Nat × Nat × Nat) : Option (List Nat) :=
   | some a, some b, some c => some [a, b, c]
   | _, _, _ => none
 
+/-- the three triangles built from the local positions `p1 < p2` of the two intersection points -/
+def divide5At (f : List Nat) (p1 p2 : Nat) : Option (List (List Nat)) :=
+  (if Gen.Division.div5IsCaseA p1 p2 then Gen.Division.div5CaseA p1 p2 else Gen.Division.div5CaseB p1 p2).mapM (pick3 f)
+
 /-- the three triangles that replace one face of size 5 -/
 def divide5 (thr : Nat) (f : List Nat) : Except DErr (List (List Nat)) :=
   match findIdx thr f 0 with
@@ -180,8 +184,7 @@ def divide5 (thr : Nat) (f : List Nat) : Except DErr (List (List Nat)) :=
     match findIdx thr f (p1 + 1) with
     | none => .error .ub          -- `*it2` / `f[5]`
     | some p2 =>
-      let tab := if Gen.Division.div5IsCaseA p1 p2 then Gen.Division.div5CaseA p1 p2 else Gen.Division.div5CaseB p1 p2
-      match tab.mapM (pick3 f) with
+      match divide5At f p1 p2 with
       | some ts => .ok ts
       | none => .error .ub
 
